@@ -3,6 +3,7 @@
 -/
 import T2N.Lemmas.Scanner
 import T2N.Lemmas.Reset
+import T2N.Lemmas.ErrFresh
 import T2N.Lemmas.Act
 import T2N.Lemmas.SimpleCC
 import T2N.Props.C02
@@ -276,5 +277,357 @@ theorem C10_stream_reset (cfg : ScanCfg) (hl : LangOk cfg.lang) (hf : cfg.lang.E
   rw [hk]
   have sa' : C02.SpansOk 0 (0 + (A ++ [s]).length) oa := by rw [Nat.zero_add]; exact sa
   rw [splice_append mk oa _ 0 (A ++ [s]) B _ sa' sb', splice_shift]
+
+end T2N.C10
+
+/-! ### the assumptions hold for the other six languages (proofs: T2N/Lemmas/ErrFresh.lean)
+
+For each language `l`: `C10_l_errFresh` (a word refused by the pristine builder leaves it pristine, flags
+included), `C10_l_rejects` (a word that is not a compound, whose lemma is not in the vocabulary and that is not
+the decimal separator is refused in every state), `C10_l_rejects_compound` (fr, it, de, nl: so is a compound
+whose group is refused — the group is interpreted on a fresh builder), `C10_l_rejects_comma` (so is the forced
+stop `","`), `C10_l_hardBreaker_cfg` (hence, for ANY configuration of that language — any character classes,
+any separation hints — a token that is not skipped, breaks sequences and whose word is refused is a hard
+breaker), `C10_l_hardBreaker` (the syntactic version for the configuration of `replace_numbers_in_text`),
+and the reset theorem with the language hypotheses discharged: `C10_scanner_reset_l`, `C10_stream_reset_l`,
+`C10_full_stop_reset_l`. -/
+
+namespace T2N.C10
+open T2N
+
+/-- the lone full stop token -/
+def fullStop : Tok := { text := w!".", lower := w!"." }
+
+/-! #### French -/
+
+theorem C10_fr_errFresh : Fr.lang.ErrFresh := ErrFreshAll.fr_errFresh
+
+theorem C10_fr_rejects (w : Word) (h1 : w.contains '-' = false) (h2 : Fr.vocab.lookup (Fr.lemmatize w) = none) (h3 : (w == w!"virgule") = false) :
+    Fr.lang.Rejects w := ErrFreshAll.fr_rejects w h1 h2 h3
+
+theorem C10_fr_rejects_compound (w : Word) (e : Err) (h1 : w.contains '-' = true) (h2 : ErrFreshAll.groupErr (execGroup (Fr.applyFuel 1) (splitOnChar '-' w)) = some e) (h3 : e ≠ Err.incomplete) :
+    Fr.lang.Rejects w := ErrFreshAll.fr_rejects_compound w e h1 h2 h3
+
+theorem C10_fr_rejects_comma : Fr.lang.Rejects [','] := ErrFreshAll.fr_rejects_comma
+
+theorem C10_fr_hardBreaker_cfg (cfg : ScanCfg) (hc : cfg.lang = Fr.lang) (tok : Tok)
+    (hsk : Scanner.isSkipped cfg tok = false) (hbr : breaks cfg tok = true)
+    (hr : Fr.lang.Rejects tok.lower) : HardBreaker cfg tok :=
+  ErrFreshAll.fr_hardBreaker_cfg cfg hc tok hsk hbr hr
+
+theorem C10_fr_hardBreaker (thr : Nat → Bool) (tok : Tok)
+    (hsk : Scanner.isSkipped (scanCfg Fr.lang thr) tok = false) (hbr : breaks (scanCfg Fr.lang thr) tok = true)
+    (h1 : tok.lower.contains '-' = false) (h2 : Fr.vocab.lookup (Fr.lemmatize tok.lower) = none) (h3 : (tok.lower == w!"virgule") = false) :
+    HardBreaker (scanCfg Fr.lang thr) tok :=
+  ErrFreshAll.fr_hardBreaker thr tok hsk hbr h1 h2 h3
+
+theorem C10_fr_fullStop_hardBreaker (thr : Nat → Bool) : HardBreaker (scanCfg Fr.lang thr) fullStop :=
+  C10_fr_hardBreaker thr _ rfl rfl (by decide) (by decide) (by decide)
+
+/-- **C10 (scanner reset, French)**: for every configuration of the French interpreter (any character
+classes, separation hints, threshold) and every separator `S` whose last token is a hard breaker -/
+theorem C10_scanner_reset_fr (cfg : ScanCfg) (hc : cfg.lang = Fr.lang) (A S B : List Tok) (hne : S ≠ [])
+    (hs : HardBreaker cfg (S.getLast hne)) :
+    ∃ oa ob, findNumbers cfg (A ++ S) = .ok oa ∧ findNumbers cfg B = .ok ob ∧
+      findNumbers cfg (A ++ S ++ B) = .ok (oa ++ ob.map (shiftOcc (A.length + S.length))) :=
+  C10_scanner_reset_sep cfg (by rw [hc]; exact C06.C06_langOk_fr) (by rw [hc]; exact C10_fr_errFresh) A S B hne hs
+
+theorem C10_stream_reset_fr (cfg : ScanCfg) (hc : cfg.lang = Fr.lang) (A B : List Tok) (s : Tok)
+    (hs : HardBreaker cfg s) (mk : List Tok → Word → Tok) :
+    ∃ oa ob oab ta tb, findNumbers cfg (A ++ [s]) = .ok oa ∧ findNumbers cfg B = .ok ob ∧
+      findNumbers cfg (A ++ [s] ++ B) = .ok oab ∧
+      replaceStream mk (A ++ [s]) oa = .ok ta ∧ replaceStream mk B ob = .ok tb ∧
+      replaceStream mk (A ++ [s] ++ B) oab = .ok (ta ++ tb) :=
+  C10_stream_reset cfg (by rw [hc]; exact C06.C06_langOk_fr) (by rw [hc]; exact C10_fr_errFresh) A B s hs mk
+
+/-- in French text a full stop token separates: whatever the tokens `A` before and `B` after it (any hints),
+at every threshold, `B` is read as if it stood alone -/
+theorem C10_full_stop_reset_fr (thr : Nat → Bool) (A B : List Tok) :
+    ∃ oa ob, findNumbers (scanCfg Fr.lang thr) (A ++ [fullStop]) = .ok oa ∧
+      findNumbers (scanCfg Fr.lang thr) B = .ok ob ∧
+      findNumbers (scanCfg Fr.lang thr) (A ++ [fullStop] ++ B) = .ok (oa ++ ob.map (shiftOcc (A.length + 1))) :=
+  C10_scanner_reset (scanCfg Fr.lang thr) C06.C06_langOk_fr C10_fr_errFresh A B fullStop
+    (C10_fr_fullStop_hardBreaker thr)
+
+/-! #### Spanish -/
+
+theorem C10_es_errFresh : Es.lang.ErrFresh := ErrFreshAll.es_errFresh
+
+theorem C10_es_rejects (w : Word) (h2 : Es.vocab.lookup (Es.lemmatize w) = none) (h3 : (w == w!"coma") = false) :
+    Es.lang.Rejects w := ErrFreshAll.es_rejects w h2 h3
+
+theorem C10_es_rejects_comma : Es.lang.Rejects [','] := ErrFreshAll.es_rejects_comma
+
+theorem C10_es_hardBreaker_cfg (cfg : ScanCfg) (hc : cfg.lang = Es.lang) (tok : Tok)
+    (hsk : Scanner.isSkipped cfg tok = false) (hbr : breaks cfg tok = true)
+    (hr : Es.lang.Rejects tok.lower) : HardBreaker cfg tok :=
+  ErrFreshAll.es_hardBreaker_cfg cfg hc tok hsk hbr hr
+
+theorem C10_es_hardBreaker (thr : Nat → Bool) (tok : Tok)
+    (hsk : Scanner.isSkipped (scanCfg Es.lang thr) tok = false) (hbr : breaks (scanCfg Es.lang thr) tok = true)
+    (h2 : Es.vocab.lookup (Es.lemmatize tok.lower) = none) (h3 : (tok.lower == w!"coma") = false) :
+    HardBreaker (scanCfg Es.lang thr) tok :=
+  ErrFreshAll.es_hardBreaker thr tok hsk hbr h2 h3
+
+theorem C10_es_fullStop_hardBreaker (thr : Nat → Bool) : HardBreaker (scanCfg Es.lang thr) fullStop :=
+  C10_es_hardBreaker thr _ rfl rfl (by decide) (by decide)
+
+/-- **C10 (scanner reset, Spanish)**: for every configuration of the Spanish interpreter (any character
+classes, separation hints, threshold) and every separator `S` whose last token is a hard breaker -/
+theorem C10_scanner_reset_es (cfg : ScanCfg) (hc : cfg.lang = Es.lang) (A S B : List Tok) (hne : S ≠ [])
+    (hs : HardBreaker cfg (S.getLast hne)) :
+    ∃ oa ob, findNumbers cfg (A ++ S) = .ok oa ∧ findNumbers cfg B = .ok ob ∧
+      findNumbers cfg (A ++ S ++ B) = .ok (oa ++ ob.map (shiftOcc (A.length + S.length))) :=
+  C10_scanner_reset_sep cfg (by rw [hc]; exact C06.C06_langOk_es) (by rw [hc]; exact C10_es_errFresh) A S B hne hs
+
+theorem C10_stream_reset_es (cfg : ScanCfg) (hc : cfg.lang = Es.lang) (A B : List Tok) (s : Tok)
+    (hs : HardBreaker cfg s) (mk : List Tok → Word → Tok) :
+    ∃ oa ob oab ta tb, findNumbers cfg (A ++ [s]) = .ok oa ∧ findNumbers cfg B = .ok ob ∧
+      findNumbers cfg (A ++ [s] ++ B) = .ok oab ∧
+      replaceStream mk (A ++ [s]) oa = .ok ta ∧ replaceStream mk B ob = .ok tb ∧
+      replaceStream mk (A ++ [s] ++ B) oab = .ok (ta ++ tb) :=
+  C10_stream_reset cfg (by rw [hc]; exact C06.C06_langOk_es) (by rw [hc]; exact C10_es_errFresh) A B s hs mk
+
+/-- in Spanish text a full stop token separates: whatever the tokens `A` before and `B` after it (any hints),
+at every threshold, `B` is read as if it stood alone -/
+theorem C10_full_stop_reset_es (thr : Nat → Bool) (A B : List Tok) :
+    ∃ oa ob, findNumbers (scanCfg Es.lang thr) (A ++ [fullStop]) = .ok oa ∧
+      findNumbers (scanCfg Es.lang thr) B = .ok ob ∧
+      findNumbers (scanCfg Es.lang thr) (A ++ [fullStop] ++ B) = .ok (oa ++ ob.map (shiftOcc (A.length + 1))) :=
+  C10_scanner_reset (scanCfg Es.lang thr) C06.C06_langOk_es C10_es_errFresh A B fullStop
+    (C10_es_fullStop_hardBreaker thr)
+
+/-! #### Portuguese -/
+
+theorem C10_pt_errFresh : Pt.lang.ErrFresh := ErrFreshAll.pt_errFresh
+
+theorem C10_pt_rejects (w : Word) (h2 : (Pt.vocab true).lookup (Pt.lemmatize w) = none) (h3 : (w == w!"vírgula") = false) :
+    Pt.lang.Rejects w := ErrFreshAll.pt_rejects w h2 h3
+
+theorem C10_pt_rejects_comma : Pt.lang.Rejects [','] := ErrFreshAll.pt_rejects_comma
+
+theorem C10_pt_hardBreaker_cfg (cfg : ScanCfg) (hc : cfg.lang = Pt.lang) (tok : Tok)
+    (hsk : Scanner.isSkipped cfg tok = false) (hbr : breaks cfg tok = true)
+    (hr : Pt.lang.Rejects tok.lower) : HardBreaker cfg tok :=
+  ErrFreshAll.pt_hardBreaker_cfg cfg hc tok hsk hbr hr
+
+theorem C10_pt_hardBreaker (thr : Nat → Bool) (tok : Tok)
+    (hsk : Scanner.isSkipped (scanCfg Pt.lang thr) tok = false) (hbr : breaks (scanCfg Pt.lang thr) tok = true)
+    (h2 : (Pt.vocab true).lookup (Pt.lemmatize tok.lower) = none) (h3 : (tok.lower == w!"vírgula") = false) :
+    HardBreaker (scanCfg Pt.lang thr) tok :=
+  ErrFreshAll.pt_hardBreaker thr tok hsk hbr h2 h3
+
+theorem C10_pt_fullStop_hardBreaker (thr : Nat → Bool) : HardBreaker (scanCfg Pt.lang thr) fullStop :=
+  C10_pt_hardBreaker thr _ rfl rfl (by decide) (by decide)
+
+/-- **C10 (scanner reset, Portuguese)**: for every configuration of the Portuguese interpreter (any character
+classes, separation hints, threshold) and every separator `S` whose last token is a hard breaker -/
+theorem C10_scanner_reset_pt (cfg : ScanCfg) (hc : cfg.lang = Pt.lang) (A S B : List Tok) (hne : S ≠ [])
+    (hs : HardBreaker cfg (S.getLast hne)) :
+    ∃ oa ob, findNumbers cfg (A ++ S) = .ok oa ∧ findNumbers cfg B = .ok ob ∧
+      findNumbers cfg (A ++ S ++ B) = .ok (oa ++ ob.map (shiftOcc (A.length + S.length))) :=
+  C10_scanner_reset_sep cfg (by rw [hc]; exact C06.C06_langOk_pt) (by rw [hc]; exact C10_pt_errFresh) A S B hne hs
+
+theorem C10_stream_reset_pt (cfg : ScanCfg) (hc : cfg.lang = Pt.lang) (A B : List Tok) (s : Tok)
+    (hs : HardBreaker cfg s) (mk : List Tok → Word → Tok) :
+    ∃ oa ob oab ta tb, findNumbers cfg (A ++ [s]) = .ok oa ∧ findNumbers cfg B = .ok ob ∧
+      findNumbers cfg (A ++ [s] ++ B) = .ok oab ∧
+      replaceStream mk (A ++ [s]) oa = .ok ta ∧ replaceStream mk B ob = .ok tb ∧
+      replaceStream mk (A ++ [s] ++ B) oab = .ok (ta ++ tb) :=
+  C10_stream_reset cfg (by rw [hc]; exact C06.C06_langOk_pt) (by rw [hc]; exact C10_pt_errFresh) A B s hs mk
+
+/-- in Portuguese text a full stop token separates: whatever the tokens `A` before and `B` after it (any hints),
+at every threshold, `B` is read as if it stood alone -/
+theorem C10_full_stop_reset_pt (thr : Nat → Bool) (A B : List Tok) :
+    ∃ oa ob, findNumbers (scanCfg Pt.lang thr) (A ++ [fullStop]) = .ok oa ∧
+      findNumbers (scanCfg Pt.lang thr) B = .ok ob ∧
+      findNumbers (scanCfg Pt.lang thr) (A ++ [fullStop] ++ B) = .ok (oa ++ ob.map (shiftOcc (A.length + 1))) :=
+  C10_scanner_reset (scanCfg Pt.lang thr) C06.C06_langOk_pt C10_pt_errFresh A B fullStop
+    (C10_pt_fullStop_hardBreaker thr)
+
+/-! #### Italian -/
+
+theorem C10_it_errFresh : It.lang.ErrFresh := ErrFreshAll.it_errFresh
+
+theorem C10_it_rejects (w : Word) (h1 : isSplittable It.patterns (It.lemmatize w) = false) (h2 : It.vocab.lookup (It.lemmatize w) = none) (h3 : (w == w!"virgola") = false) :
+    It.lang.Rejects w := ErrFreshAll.it_rejects w h1 h2 h3
+
+theorem C10_it_rejects_compound (w : Word) (e : Err) (h1 : isSplittable It.patterns (It.lemmatize w) = true) (h2 : ErrFreshAll.groupErr (execGroup (It.applyFuel 1) (splitWord It.patterns (It.lemmatize w))) = some e) (h3 : e ≠ Err.incomplete) (h4 : (w == w!"virgola") = false) :
+    It.lang.Rejects w := ErrFreshAll.it_rejects_compound w e h1 h2 h3 h4
+
+theorem C10_it_rejects_comma : It.lang.Rejects [','] := ErrFreshAll.it_rejects_comma
+
+theorem C10_it_hardBreaker_cfg (cfg : ScanCfg) (hc : cfg.lang = It.lang) (tok : Tok)
+    (hsk : Scanner.isSkipped cfg tok = false) (hbr : breaks cfg tok = true)
+    (hr : It.lang.Rejects tok.lower) : HardBreaker cfg tok :=
+  ErrFreshAll.it_hardBreaker_cfg cfg hc tok hsk hbr hr
+
+theorem C10_it_hardBreaker (thr : Nat → Bool) (tok : Tok)
+    (hsk : Scanner.isSkipped (scanCfg It.lang thr) tok = false) (hbr : breaks (scanCfg It.lang thr) tok = true)
+    (h1 : isSplittable It.patterns (It.lemmatize tok.lower) = false) (h2 : It.vocab.lookup (It.lemmatize tok.lower) = none) (h3 : (tok.lower == w!"virgola") = false) :
+    HardBreaker (scanCfg It.lang thr) tok :=
+  ErrFreshAll.it_hardBreaker thr tok hsk hbr h1 h2 h3
+
+theorem C10_it_fullStop_hardBreaker (thr : Nat → Bool) : HardBreaker (scanCfg It.lang thr) fullStop :=
+  C10_it_hardBreaker thr _ rfl rfl (by decide) (by decide) (by decide)
+
+/-- **C10 (scanner reset, Italian)**: for every configuration of the Italian interpreter (any character
+classes, separation hints, threshold) and every separator `S` whose last token is a hard breaker -/
+theorem C10_scanner_reset_it (cfg : ScanCfg) (hc : cfg.lang = It.lang) (A S B : List Tok) (hne : S ≠ [])
+    (hs : HardBreaker cfg (S.getLast hne)) :
+    ∃ oa ob, findNumbers cfg (A ++ S) = .ok oa ∧ findNumbers cfg B = .ok ob ∧
+      findNumbers cfg (A ++ S ++ B) = .ok (oa ++ ob.map (shiftOcc (A.length + S.length))) :=
+  C10_scanner_reset_sep cfg (by rw [hc]; exact C06.C06_langOk_it) (by rw [hc]; exact C10_it_errFresh) A S B hne hs
+
+theorem C10_stream_reset_it (cfg : ScanCfg) (hc : cfg.lang = It.lang) (A B : List Tok) (s : Tok)
+    (hs : HardBreaker cfg s) (mk : List Tok → Word → Tok) :
+    ∃ oa ob oab ta tb, findNumbers cfg (A ++ [s]) = .ok oa ∧ findNumbers cfg B = .ok ob ∧
+      findNumbers cfg (A ++ [s] ++ B) = .ok oab ∧
+      replaceStream mk (A ++ [s]) oa = .ok ta ∧ replaceStream mk B ob = .ok tb ∧
+      replaceStream mk (A ++ [s] ++ B) oab = .ok (ta ++ tb) :=
+  C10_stream_reset cfg (by rw [hc]; exact C06.C06_langOk_it) (by rw [hc]; exact C10_it_errFresh) A B s hs mk
+
+/-- in Italian text a full stop token separates: whatever the tokens `A` before and `B` after it (any hints),
+at every threshold, `B` is read as if it stood alone -/
+theorem C10_full_stop_reset_it (thr : Nat → Bool) (A B : List Tok) :
+    ∃ oa ob, findNumbers (scanCfg It.lang thr) (A ++ [fullStop]) = .ok oa ∧
+      findNumbers (scanCfg It.lang thr) B = .ok ob ∧
+      findNumbers (scanCfg It.lang thr) (A ++ [fullStop] ++ B) = .ok (oa ++ ob.map (shiftOcc (A.length + 1))) :=
+  C10_scanner_reset (scanCfg It.lang thr) C06.C06_langOk_it C10_it_errFresh A B fullStop
+    (C10_it_fullStop_hardBreaker thr)
+
+/-! #### German -/
+
+theorem C10_de_errFresh : De.lang.ErrFresh := ErrFreshAll.de_errFresh
+
+theorem C10_de_rejects (w : Word) (h1 : isSplittable De.patterns (De.lemmatize w) = false) (h2 : De.vocab.lookup (De.lemmatize w) = none) (h3 : De.decVocab.lookup w = none) (h4 : (w == w!"komma") = false) :
+    De.lang.Rejects w := ErrFreshAll.de_rejects w h1 h2 h3 h4
+
+theorem C10_de_rejects_compound (w : Word) (e : Err) (h1 : isSplittable De.patterns (De.lemmatize w) = true) (h2 : ErrFreshAll.groupErr (execGroup (De.applyFuel 1) (splitWord De.patterns (De.lemmatize w))) = some e) (h3 : e ≠ Err.incomplete) (h4 : De.decVocab.lookup w = none) (h5 : (w == w!"komma") = false) :
+    De.lang.Rejects w := ErrFreshAll.de_rejects_compound w e h1 h2 h3 h4 h5
+
+theorem C10_de_rejects_comma : De.lang.Rejects [','] := ErrFreshAll.de_rejects_comma
+
+theorem C10_de_hardBreaker_cfg (cfg : ScanCfg) (hc : cfg.lang = De.lang) (tok : Tok)
+    (hsk : Scanner.isSkipped cfg tok = false) (hbr : breaks cfg tok = true)
+    (hr : De.lang.Rejects tok.lower) : HardBreaker cfg tok :=
+  ErrFreshAll.de_hardBreaker_cfg cfg hc tok hsk hbr hr
+
+theorem C10_de_hardBreaker (thr : Nat → Bool) (tok : Tok)
+    (hsk : Scanner.isSkipped (scanCfg De.lang thr) tok = false) (hbr : breaks (scanCfg De.lang thr) tok = true)
+    (h1 : isSplittable De.patterns (De.lemmatize tok.lower) = false) (h2 : De.vocab.lookup (De.lemmatize tok.lower) = none) (h3 : De.decVocab.lookup tok.lower = none) (h4 : (tok.lower == w!"komma") = false) :
+    HardBreaker (scanCfg De.lang thr) tok :=
+  ErrFreshAll.de_hardBreaker thr tok hsk hbr h1 h2 h3 h4
+
+theorem C10_de_fullStop_hardBreaker (thr : Nat → Bool) : HardBreaker (scanCfg De.lang thr) fullStop :=
+  C10_de_hardBreaker thr _ rfl rfl (by decide) (by decide) (by decide) (by decide)
+
+/-- **C10 (scanner reset, German)**: for every configuration of the German interpreter (any character
+classes, separation hints, threshold) and every separator `S` whose last token is a hard breaker -/
+theorem C10_scanner_reset_de (cfg : ScanCfg) (hc : cfg.lang = De.lang) (A S B : List Tok) (hne : S ≠ [])
+    (hs : HardBreaker cfg (S.getLast hne)) :
+    ∃ oa ob, findNumbers cfg (A ++ S) = .ok oa ∧ findNumbers cfg B = .ok ob ∧
+      findNumbers cfg (A ++ S ++ B) = .ok (oa ++ ob.map (shiftOcc (A.length + S.length))) :=
+  C10_scanner_reset_sep cfg (by rw [hc]; exact C06.C06_langOk_de) (by rw [hc]; exact C10_de_errFresh) A S B hne hs
+
+theorem C10_stream_reset_de (cfg : ScanCfg) (hc : cfg.lang = De.lang) (A B : List Tok) (s : Tok)
+    (hs : HardBreaker cfg s) (mk : List Tok → Word → Tok) :
+    ∃ oa ob oab ta tb, findNumbers cfg (A ++ [s]) = .ok oa ∧ findNumbers cfg B = .ok ob ∧
+      findNumbers cfg (A ++ [s] ++ B) = .ok oab ∧
+      replaceStream mk (A ++ [s]) oa = .ok ta ∧ replaceStream mk B ob = .ok tb ∧
+      replaceStream mk (A ++ [s] ++ B) oab = .ok (ta ++ tb) :=
+  C10_stream_reset cfg (by rw [hc]; exact C06.C06_langOk_de) (by rw [hc]; exact C10_de_errFresh) A B s hs mk
+
+/-- in German text a full stop token separates: whatever the tokens `A` before and `B` after it (any hints),
+at every threshold, `B` is read as if it stood alone -/
+theorem C10_full_stop_reset_de (thr : Nat → Bool) (A B : List Tok) :
+    ∃ oa ob, findNumbers (scanCfg De.lang thr) (A ++ [fullStop]) = .ok oa ∧
+      findNumbers (scanCfg De.lang thr) B = .ok ob ∧
+      findNumbers (scanCfg De.lang thr) (A ++ [fullStop] ++ B) = .ok (oa ++ ob.map (shiftOcc (A.length + 1))) :=
+  C10_scanner_reset (scanCfg De.lang thr) C06.C06_langOk_de C10_de_errFresh A B fullStop
+    (C10_de_fullStop_hardBreaker thr)
+
+/-! #### Dutch -/
+
+theorem C10_nl_errFresh : Nl.lang.ErrFresh := ErrFreshAll.nl_errFresh
+
+theorem C10_nl_rejects (w : Word) (h1 : isSplittable Nl.patterns w = false) (h2 : Nl.vocab.lookup w = none) (h3 : (w == w!"komma") = false) :
+    Nl.lang.Rejects w := ErrFreshAll.nl_rejects w h1 h2 h3
+
+theorem C10_nl_rejects_compound (w : Word) (e : Err) (h1 : isSplittable Nl.patterns w = true) (h2 : ErrFreshAll.groupErr (execGroup (Nl.applyFuel 1) (splitWord Nl.patterns w)) = some e) (h3 : e ≠ Err.incomplete) (h4 : (w == w!"komma") = false) :
+    Nl.lang.Rejects w := ErrFreshAll.nl_rejects_compound w e h1 h2 h3 h4
+
+theorem C10_nl_rejects_comma : Nl.lang.Rejects [','] := ErrFreshAll.nl_rejects_comma
+
+theorem C10_nl_hardBreaker_cfg (cfg : ScanCfg) (hc : cfg.lang = Nl.lang) (tok : Tok)
+    (hsk : Scanner.isSkipped cfg tok = false) (hbr : breaks cfg tok = true)
+    (hr : Nl.lang.Rejects tok.lower) : HardBreaker cfg tok :=
+  ErrFreshAll.nl_hardBreaker_cfg cfg hc tok hsk hbr hr
+
+theorem C10_nl_hardBreaker (thr : Nat → Bool) (tok : Tok)
+    (hsk : Scanner.isSkipped (scanCfg Nl.lang thr) tok = false) (hbr : breaks (scanCfg Nl.lang thr) tok = true)
+    (h1 : isSplittable Nl.patterns tok.lower = false) (h2 : Nl.vocab.lookup tok.lower = none) (h3 : (tok.lower == w!"komma") = false) :
+    HardBreaker (scanCfg Nl.lang thr) tok :=
+  ErrFreshAll.nl_hardBreaker thr tok hsk hbr h1 h2 h3
+
+theorem C10_nl_fullStop_hardBreaker (thr : Nat → Bool) : HardBreaker (scanCfg Nl.lang thr) fullStop :=
+  C10_nl_hardBreaker thr _ rfl rfl (by decide) (by decide) (by decide)
+
+/-- **C10 (scanner reset, Dutch)**: for every configuration of the Dutch interpreter (any character
+classes, separation hints, threshold) and every separator `S` whose last token is a hard breaker -/
+theorem C10_scanner_reset_nl (cfg : ScanCfg) (hc : cfg.lang = Nl.lang) (A S B : List Tok) (hne : S ≠ [])
+    (hs : HardBreaker cfg (S.getLast hne)) :
+    ∃ oa ob, findNumbers cfg (A ++ S) = .ok oa ∧ findNumbers cfg B = .ok ob ∧
+      findNumbers cfg (A ++ S ++ B) = .ok (oa ++ ob.map (shiftOcc (A.length + S.length))) :=
+  C10_scanner_reset_sep cfg (by rw [hc]; exact C06.C06_langOk_nl) (by rw [hc]; exact C10_nl_errFresh) A S B hne hs
+
+theorem C10_stream_reset_nl (cfg : ScanCfg) (hc : cfg.lang = Nl.lang) (A B : List Tok) (s : Tok)
+    (hs : HardBreaker cfg s) (mk : List Tok → Word → Tok) :
+    ∃ oa ob oab ta tb, findNumbers cfg (A ++ [s]) = .ok oa ∧ findNumbers cfg B = .ok ob ∧
+      findNumbers cfg (A ++ [s] ++ B) = .ok oab ∧
+      replaceStream mk (A ++ [s]) oa = .ok ta ∧ replaceStream mk B ob = .ok tb ∧
+      replaceStream mk (A ++ [s] ++ B) oab = .ok (ta ++ tb) :=
+  C10_stream_reset cfg (by rw [hc]; exact C06.C06_langOk_nl) (by rw [hc]; exact C10_nl_errFresh) A B s hs mk
+
+/-- in Dutch text a full stop token separates: whatever the tokens `A` before and `B` after it (any hints),
+at every threshold, `B` is read as if it stood alone -/
+theorem C10_full_stop_reset_nl (thr : Nat → Bool) (A B : List Tok) :
+    ∃ oa ob, findNumbers (scanCfg Nl.lang thr) (A ++ [fullStop]) = .ok oa ∧
+      findNumbers (scanCfg Nl.lang thr) B = .ok ob ∧
+      findNumbers (scanCfg Nl.lang thr) (A ++ [fullStop] ++ B) = .ok (oa ++ ob.map (shiftOcc (A.length + 1))) :=
+  C10_scanner_reset (scanCfg Nl.lang thr) C06.C06_langOk_nl C10_nl_errFresh A B fullStop
+    (C10_nl_fullStop_hardBreaker thr)
+
+/-! non-vacuity: ordinary words of each language are hard breakers (plain words, and for the compounding
+languages words that contain a number pattern: de `hund` ⊃ `und`, nl `katten` ⊃ `en`, it `conventi` ⊃ `venti`,
+fr `peut-être`) -/
+example (thr : Nat → Bool) : HardBreaker (scanCfg Fr.lang thr) { text := w!"Chats", lower := w!"chats" } :=
+  C10_fr_hardBreaker thr _ rfl rfl (by decide) (by decide) (by decide)
+example (thr : Nat → Bool) : HardBreaker (scanCfg Fr.lang thr) { text := w!"peut-être", lower := w!"peut-être" } :=
+  C10_fr_hardBreaker_cfg _ rfl _ rfl rfl (C10_fr_rejects_compound _ Err.nan (by decide) (by decide) (by decide))
+example (thr : Nat → Bool) : HardBreaker (scanCfg Es.lang thr) { text := w!"Gatos", lower := w!"gatos" } :=
+  C10_es_hardBreaker thr _ rfl rfl (by decide) (by decide)
+example (thr : Nat → Bool) : HardBreaker (scanCfg Pt.lang thr) { text := w!"Gatos", lower := w!"gatos" } :=
+  C10_pt_hardBreaker thr _ rfl rfl (by decide) (by decide)
+example (thr : Nat → Bool) : HardBreaker (scanCfg It.lang thr) { text := w!"Gatti", lower := w!"gatti" } :=
+  C10_it_hardBreaker thr _ rfl rfl (by decide) (by decide) (by decide)
+example (thr : Nat → Bool) : HardBreaker (scanCfg It.lang thr) { text := w!"Conventi", lower := w!"conventi" } :=
+  C10_it_hardBreaker_cfg _ rfl _ rfl rfl
+    (C10_it_rejects_compound _ Err.nan (by decide) (by decide) (by decide) (by decide))
+example (thr : Nat → Bool) : HardBreaker (scanCfg De.lang thr) { text := w!"Katzen", lower := w!"katzen" } :=
+  C10_de_hardBreaker thr _ rfl rfl (by decide) (by decide) (by decide) (by decide)
+example (thr : Nat → Bool) : HardBreaker (scanCfg De.lang thr) { text := w!"Hund", lower := w!"hund" } :=
+  C10_de_hardBreaker_cfg _ rfl _ rfl rfl
+    (C10_de_rejects_compound _ Err.nan (by decide) (by decide) (by decide) (by decide) (by decide))
+example (thr : Nat → Bool) : HardBreaker (scanCfg Nl.lang thr) { text := w!"Fiets", lower := w!"fiets" } :=
+  C10_nl_hardBreaker thr _ rfl rfl (by decide) (by decide) (by decide)
+example (thr : Nat → Bool) : HardBreaker (scanCfg Nl.lang thr) { text := w!"Katten", lower := w!"katten" } :=
+  C10_nl_hardBreaker_cfg _ rfl _ rfl rfl
+    (C10_nl_rejects_compound _ Err.nan (by decide) (by decide) (by decide) (by decide))
+
+/-- instance: French `vingt . deux` is read as `20`, `2` — not as `22` -/
+example : findNumbers (scanCfg Fr.lang zeroThr)
+    ([{ text := w!"vingt", lower := w!"vingt" }] ++ [fullStop] ++ [{ text := w!"deux", lower := w!"deux" }]) =
+    .ok [⟨0, 1, w!"20", .dec [2, 0] [], false⟩, ⟨2, 3, w!"2", .dec [2] [], false⟩] := by rfl
 
 end T2N.C10
